@@ -166,7 +166,7 @@ def enc(v):
         return "n"
     if isinstance(v, bool):
         return "i:1" if v else "i:0"
-    if isinstance(v, (bytes, bytearray)):
+    if isinstance(v, (bytes, bytearray, memoryview)):
         return enc_b(v)
     if isinstance(v, str):
         return enc_s(v)
@@ -677,7 +677,10 @@ ALIAS_WATCH = []
 
 
 def _has_header(v):
-    return isinstance(v, _tr31.Header) or (isinstance(v, (tuple, list)) and any(isinstance(x, _tr31.Header) for x in v))
+    """results that can change after they were returned: header objects, and byte results that are not immutable `bytes`
+    (a bytearray or a memoryview may be a window onto a buffer the implementation keeps using)"""
+    watch = (_tr31.Header, bytearray, memoryview)
+    return isinstance(v, watch) or (isinstance(v, (tuple, list)) and any(isinstance(x, watch) for x in v))
 
 
 def alias_recheck():
